@@ -57,6 +57,10 @@ pub struct Behaviour {
 thread_local! {
     /// behaviours by actor id (set by the program before spawning)
     pub static BEHAV: RefCell<HashMap<usize, Behaviour>> = RefCell::new(HashMap::new());
+    /// unit broadcasts: parent actor -> children registered with `add_child` (one entry per registration), and
+    /// child actor -> numbers of the unit broadcasts submitted to it and not yet handled
+    pub static UNIT_CHILDREN: RefCell<HashMap<usize, Vec<usize>>> = RefCell::new(HashMap::new());
+    pub static UNITQ: RefCell<HashMap<usize, std::collections::VecDeque<usize>>> = RefCell::new(HashMap::new());
     pub static NEXT_ACTOR: RefCell<usize> = const { RefCell::new(0) };
     pub static NEXT_BIRTH: RefCell<usize> = const { RefCell::new(0) };
     pub static NEXT_MSG: RefCell<usize> = const { RefCell::new(100000) };
@@ -372,8 +376,9 @@ async fn run_script<const K: usize>(node: &mut Node<K>, ctx: &mut Context<Node<K
             Act::AddChild(h) => {
                 let taken = POOL.with(|p| p.borrow_mut().remove(h));
                 match taken {
-                    Some(HandleBox::SenderUnit(s)) => {
+                    Some(HandleBox::SenderUnit(child, s)) => {
                         ctx.add_child(s);
+                        UNIT_CHILDREN.with(|u| u.borrow_mut().entry(a).or_default().push(child));
                         emit(format!("ctx {} add_child {}", a, h));
                     }
                     Some(other) => {
@@ -400,11 +405,31 @@ async fn run_script<const K: usize>(node: &mut Node<K>, ctx: &mut Context<Node<K
                 }
             }
             Act::SendToChildren { j, b } => {
+                let mut unit = false;
                 match j {
                     0 => ctx.send_to_children(Bcast::<0> { b: *b }),
-                    _ => ctx.send_to_children(Bcast::<1> { b: *b }),
+                    1 => ctx.send_to_children(Bcast::<1> { b: *b }),
+                    _ => {
+                        // the unit message carries no number: the number of this broadcast is queued, once per
+                        // `add_child` registration made through this actor's context and in registration order, for
+                        // the child's `Handler<()>` to pick up - `force_send` is synchronous, so the queue order is
+                        // the order of the child's mailbox.  A delivery that never happens leaves its number unclaimed
+                        // (the model then misses it); one too many finds the queue empty (number 0: never broadcast)
+                        ctx.send_to_children(());
+                        let kids = UNIT_CHILDREN.with(|u| u.borrow().get(&a).cloned().unwrap_or_default());
+                        UNITQ.with(|q| {
+                            let mut q = q.borrow_mut();
+                            for k in kids {
+                                q.entry(k).or_default().push_back(*b);
+                            }
+                        });
+                        emit(format!("ctx {} send_to_children_unit {}", a, b));
+                        unit = true;
+                    }
                 }
-                emit(format!("ctx {} send_to_children {} {}", a, j, b));
+                if !unit {
+                    emit(format!("ctx {} send_to_children {} {}", a, j, b));
+                }
             }
             Act::Subscribe(j) => {
                 let o = crate::prog::fresh_op();
@@ -545,7 +570,17 @@ impl<const K: usize> Handler<Note> for Node<K> {
 }
 
 impl<const K: usize> Handler<()> for Node<K> {
-    async fn handle(&mut self, _ctx: &mut Context<Self>, _msg: ()) {}
+    async fn handle(&mut self, ctx: &mut Context<Self>, _msg: ()) {
+        let bnum = UNITQ.with(|q| q.borrow_mut().get_mut(&self.id).and_then(|q| q.pop_front())).unwrap_or(0);
+        let m = fresh_msg();
+        emit(format!("bcast {} {} {} {}", self.id, 9, bnum, m));
+        let b = behaviour(self.id);
+        let g = CbGuard::begin(self.id, self.birth, format!("handle {}", m));
+        self.log.push(m);
+        let _ = run_script(self, ctx, &b.tick).await;
+        self.done.push(m);
+        g.end(true);
+    }
 }
 
 impl<const K: usize> Handler<Tick> for Node<K> {
